@@ -356,6 +356,15 @@ class KmipEngine(object):
     def _process_batch(self, request_batch, batch_handling, batch_order):
         response_batch = list()
 
+        # Process batch item IDs before any item is executed, so that a malformed
+        # batch is rejected as a whole instead of after some items took effect.
+        if len(request_batch) > 1:
+            for batch_item in request_batch:
+                if not batch_item.unique_batch_item_id:
+                    raise exceptions.InvalidMessage(
+                        "Batch item ID is undefined."
+                    )
+
         with self._data_store_session_factory() as session:
             self._data_session = session
 
@@ -369,13 +378,6 @@ class KmipEngine(object):
 
                 operation = batch_item.operation
                 request_payload = batch_item.request_payload
-
-                # Process batch item ID.
-                if len(request_batch) > 1:
-                    if not batch_item.unique_batch_item_id:
-                        raise exceptions.InvalidMessage(
-                            "Batch item ID is undefined."
-                        )
 
                 # Process batch message extension.
                 # TODO (peterhamilton) Add support for message extension handling.
